@@ -55,7 +55,9 @@ def polyco(draw, mode=None):
     letter = draw(st.sampled_from(EXPO))
     day0 = draw(st.integers(58000, 59990))
     min0 = draw(st.integers(0, 1439))
-    gaps_ms = [draw(st.sampled_from([0, 0, 0, 0.5, 0.9, 1.5, 5000, 3600000, -60000, -span * 30000, 0.2])) for _ in range(nent - 1)]
+    gaps_ms = [draw(st.sampled_from([0, 0, 0, 0.5, 0.9, 1.5, 5000, 3600000, -60000, -span * 30000, 0.2,
+                                        # observing sessions days to months apart in one file
+                                        8.64e8, 1.2096e10])) for _ in range(nent - 1)]
     if mode == "model":
         gaps_ms = [g for g in gaps_ms]
     taus = [F(0)]
